@@ -11,7 +11,7 @@ import (
 
 func init() {
 	register("C01", propMeta{
-		Explanation: "Exactly-once in-order delivery is provided by third-party KCP and smux and is NOT decided. Decided is the repository's glue that lets one KCP session outlive its carriers; each clause is a necessary condition (break it and some payload/fault schedule stalls, corrupts or ends the stream). O-1 carrier preamble agreement: in the dialContext closure of newSession every path to the successful return writes, in this order, turbotunnel.Token and the session's ClientID, each followed by an error exit; the ClientID is the value of one turbotunnel.NewClientID() call made by newSession outside the closure (one id per session, not per dial); the server reads len(Token) then len(ClientID) bytes before the first ReadData (sizes via types: 8/8). O-2 protocol constants agree between the two ends: kcp.NewConn2(_, nil, 0, 0, _) versus kcp.ServeConn(nil, 0, 0, _), smux Version equal on both ends; stream mode, window size and no-delay parameters equal on both ends. O-3 reliable ordered data channel: the DataChannelInit given to CreateDataChannel has Ordered pointing at a variable whose only store is true and sets neither MaxRetransmits nor MaxPacketLifeTime. O-4/O-5 (shared with C17): the redial adapter surfaces errors only after close and enqueues private copies. O-6 both relay directions exist in the three copy loops (two io.Copy calls with swapped arguments). O-7 liveness glue: the last-receive timestamp is written only on the receive path (the OnMessage callback and the staleness loop's initialisation) so that traffic the client itself sends cannot keep a dead proxy alive; the staleness loop closes the peer when time.Since(lastReceive) exceeds its timeout and is started on every successful connect; the broker round trip has a bounded response-header timeout, so a lost broker answer cannot park the collector (which holds the collect lock) for ever.",
+		Explanation: "Exactly-once in-order delivery is provided by third-party KCP and smux and is NOT decided. Decided is the repository's glue that lets one KCP session outlive its carriers; each clause is a necessary condition (break it and some payload/fault schedule stalls, corrupts or ends the stream). O-1 carrier preamble agreement: in the dialContext closure of newSession every path to the successful return writes, in this order, turbotunnel.Token and the session's ClientID, each followed by an error exit; the ClientID is the value of one turbotunnel.NewClientID() call made by newSession outside the closure (one id per session, not per dial); the server reads len(Token) then len(ClientID) bytes before the first ReadData (sizes via types: 8/8). O-2 protocol constants agree between the two ends: kcp.NewConn2(_, nil, 0, 0, _) versus kcp.ServeConn(nil, 0, 0, _), smux Version equal on both ends; stream mode, window size and no-delay parameters equal on both ends. O-3 reliable ordered data channel: the DataChannelInit given to CreateDataChannel has Ordered pointing at a variable whose only store is true and sets neither MaxRetransmits nor MaxPacketLifeTime. O-4/O-5 (shared with C17): the redial adapter surfaces errors only after close and enqueues private copies. O-6 both relay directions exist in the three copy loops (two io.Copy calls with swapped arguments). O-7 liveness glue: the last-receive timestamp is written only on the receive path (the OnMessage callback and the staleness loop's initialisation) so that traffic the client itself sends cannot keep a dead proxy alive; the staleness loop closes the peer when time.Since(lastReceive) exceeds its timeout and is started on every successful connect; the broker round trip has a bounded response-header timeout, so a lost broker answer cannot park the collector (which holds the collect lock) for ever. O-8 every packet written with encapsulation.WriteData through a bufio.Writer is flushed on its success path before the next packet or the return (client adapter and server write loop).",
 		NotDecided:  "delivery, ordering and duplication under any fault sequence; KCP/smux correctness; timing of staleness detection and re-collection; the proxy's relay behaviour under load. These remain the bulk of C01.",
 		Assumptions: []string{"kcp-go and smux implement reliable ordered delivery over a lossy packet conn", "pion data channels are reliable and ordered when Ordered is true and no retransmit limit is set"},
 	}, runC01)
@@ -237,6 +237,82 @@ func runC01(c *Ctx) {
 
 	// ---------- O-7 ----------
 	c.checkLivenessGlue()
+
+	// ---------- O-8 buffered packet writes are flushed ----------
+	c.checkFlushAfterWriteData("O-8 every encapsulated packet written through a buffered writer is flushed")
+}
+
+// checkFlushAfterWriteData: wherever encapsulation.WriteData writes through a
+// *bufio.Writer, every path on which it succeeded reaches Flush on that writer
+// before the function returns or writes the next packet.
+func (c *Ctx) checkFlushAfterWriteData(rule string) {
+	p := c.P
+	n := 0
+	for _, fn := range p.FnsIn("client/lib", "server/lib") {
+		for _, ci := range callsTo(fn, "common/encapsulation.WriteData") {
+			cc, ok := ci.(*ssa.Call)
+			if !ok {
+				continue
+			}
+			w := cc.Call.Args[0]
+			bt := boxedType(w)
+			if bt == nil || !strings.HasSuffix(typeString(bt), "bufio.Writer") {
+				continue
+			}
+			n++
+			inner := w
+			if mi, okm := w.(*ssa.MakeInterface); okm {
+				inner = mi.X
+			}
+			isFlush := func(in ssa.Instruction) bool {
+				f, okf := in.(ssa.CallInstruction)
+				if !okf || calleeName(f) != "(*bufio.Writer).Flush" {
+					return false
+				}
+				a := f.Common().Args[0]
+				return a == inner || sameSource(a, inner)
+			}
+			var path []*ssa.BasicBlock
+			for _, e := range errNilEdges(fn, cc, 1) {
+				blocked := func(b *ssa.BasicBlock) bool {
+					for _, in := range b.Instrs {
+						if isFlush(in) {
+							return true
+						}
+					}
+					return false
+				}
+				if pth := psSearch(e.To(), nil, blocked, func(b *ssa.BasicBlock) bool {
+					if b == cc.Block() {
+						return true
+					}
+					if len(b.Instrs) == 0 {
+						return false
+					}
+					_, isRet := b.Instrs[len(b.Instrs)-1].(*ssa.Return)
+					return isRet
+				}); pth != nil {
+					path = pth
+				}
+			}
+			c.check(len(errNilEdges(fn, cc, 1)) > 0 && path == nil, rule, p.FnName(fn)+" flushes after WriteData", p.instrPos(cc), "",
+				"a packet written into the bufio.Writer can stay buffered (no Flush before the next packet or the return): KCP segments sit in the buffer and the stream stalls until unrelated traffic pushes them out", p.pathString(path)...)
+		}
+	}
+	if n < 2 {
+		c.undecided(rule, "WriteData through bufio.Writer", "-", fmt.Sprintf("%d sites found, expected the client adapter and the server write loop", n))
+	}
+}
+
+// sameSource: two values are loads of the same field of the same base, or the
+// same value.
+func sameSource(a, b ssa.Value) bool {
+	if a == b {
+		return true
+	}
+	ba, fa, oka := fieldLoad(a)
+	bb, fb, okb := fieldLoad(b)
+	return oka && okb && fa == fb && strip(ba) == strip(bb)
 }
 
 func describeWrite(w, tok *ssa.Call) string {
